@@ -201,14 +201,17 @@ def goEncodeLen (s : Bytes) : Nat := encLenRound (s.foldl (fun n c => encLenTerm
 
 /-! ### declarative decoder with the `maxLen` rule -/
 
+def decodeStepMax (maxLen : Nat) (m : Option (Nat × List Bool)) (bits : List Bool) (acc : Bytes)
+    (k : List Bool → Bytes → Except HErr Bytes) : Except HErr Bytes :=
+  match m with
+  | some (sym, rest) =>
+    if maxLen ≠ 0 ∧ acc.length = maxLen then .error .strLen
+    else k rest (UInt8.ofNat sym :: acc)
+  | none => if bits.length < 8 ∧ bits.all id then .ok acc.reverse else .error .invalid
+
 def decodeBitsMax (maxLen : Nat) : Nat → List Bool → Bytes → Except HErr Bytes
   | 0, _, _ => .error .invalid
-  | fuel + 1, bits, acc =>
-    match matchSym bits with
-    | some (sym, rest) =>
-      if maxLen ≠ 0 ∧ acc.length = maxLen then .error .strLen
-      else decodeBitsMax maxLen fuel rest (UInt8.ofNat sym :: acc)
-    | none => if bits.length < 8 ∧ bits.all id then .ok acc.reverse else .error .invalid
+  | fuel + 1, bits, acc => decodeStepMax maxLen (matchSym bits) bits acc (decodeBitsMax maxLen fuel)
 
 def decodeSpecMax (maxLen : Nat) (v : Bytes) : Except HErr Bytes :=
   decodeBitsMax maxLen (8 * v.length + 1) (bytesToBits v) []
